@@ -60,8 +60,11 @@ ANCHORS = {
               "ContinuousProjection.exportHdf5", "InputList.exportHdf5", "*.get_*_cell_id", "*._get_cell_id"],
         "neuroml/hdf5/NeuroMLHdf5Parser.py": ["NeuroMLHdf5Parser.*"],
         "neuroml/hdf5/NetworkBuilder.py": ["NetworkBuilder.*"],
+        "neuroml/hdf5/NetworkContainer.py": ["OptimizedList.*", "InstanceList.__getitem__", "ConnectionList.__getitem__",
+                                             "InputsList.__getitem__", "*Container.__init__"],
+        "neuroml/hdf5/__init__.py": ["get_str_attribute_group"],
         "neuroml/loaders.py": ["NeuroMLHdf5Loader.*", "read_neuroml2_file", "_read_neuroml2"],
-        "neuroml/utils.py": ["add_all_to_document", "append_to_element"],
+        "neuroml/utils.py": ["add_all_to_document", "append_to_element", "has_segment_fraction_info"],
     },
     "C06": {
         "neuroml/loaders.py": ["_read_neuroml2", "read_neuroml2_file", "read_neuroml2_string", "NeuroMLLoader.*",
